@@ -33,6 +33,10 @@ MUTS = [
  ('error-not-counted', 'snaps/snapshot.go', '\tt.Error(err)\n\ttestEvents.register(erred)', '\tt.Error(err)', ['C20']),
  ('yaml-not-escaped', 'snaps/matchYAML.go', 'return escapeEndChars(string(b))', 'return string(b)', ['C01','C04']),
  ('sort-never', 'snaps/clean.go', '\t\topt.Sort && !isCI,', '\t\tfalse && opt.Sort && !isCI,', ['C10']),
+ ('run-deeper-levels-not-matched', 'snaps/skip.go', '\t\t\tif i >= len(alternative) {\n\t\t\t\tbreak\n\t\t\t}', '\t\t\tif i >= len(alternative) {\n\t\t\t\tmatched = false\n\t\t\t\tbreak\n\t\t\t}', ['C08','C09']),
+ ('run-alternation-ignored', 'snaps/skip.go', "\t\tcase '|':\n\t\t\tif brackets == 0 && parens == 0 {", "\t\tcase '|':\n\t\t\tif false && brackets == 0 && parens == 0 {", ['C08','C09']),
+ ('empty-unused-file-protected', 'snaps/skip.go', '\treturn found\n}', '\treturn true\n}', ['C09']),
+ ('skip-list-ignored-for-files', 'snaps/clean.go', '\t\t\tif isFileSkipped(dir, content.Name(), runOnly) ||\n\t\t\t\tfileOfSkippedTests(snapPath, runOnly) {', '\t\t\tif isFileSkipped(dir, content.Name(), runOnly) {', ['C08']),
  ('added-log-twice', 'snaps/matchYAML.go', '\t\tt.Log(addedMsg)\n\t\ttestEvents.register(added)', '\t\tt.Log(addedMsg)\n\t\tt.Log(addedMsg)\n\t\ttestEvents.register(added)', ['C20']),
 ]
 def sh(cmd, **kw):
